@@ -24,6 +24,7 @@ pub fn def() -> PropDef {
         block: BLOCK,
         flavours: &["tokio"],
         outcome: None,
+        extra_profiles: &[],
     }
 }
 
